@@ -40,5 +40,4 @@ func VerifX509EKUs(ekus []int, unknown [][]int) []string {
 }
 
 func VerifGetCertificateInfo(c *x509.Certificate) (Info, error) { return getCertificateInfo(c) }
-func VerifParseCertificate(der []byte) (Info, error)            { return parseCertificate(der) }
-func VerifParsePEMBlock(b *pem.Block) Info                      { return parsePEMBlock(b) }
+func VerifParsePEMBlockC03(b *pem.Block) Info                   { return parsePEMBlock(b) }
